@@ -317,6 +317,19 @@ func exec(c Case) (v ev.Verdict) {
 			if m := notLowered(); m != "" {
 				return ev.Failf("upgradeall-lowers", "%s: %s\n before %v -> %v\n after  %v -> %v", where, m, reqs, bl, res, bl2)
 			}
+			// "contains the resolved version": every project of the new build list is at (or above)
+			// the newest tagged version of its major
+			for q, qv := range bl2 {
+				newest := qv
+				for _, tv := range u.TaggedVersions(q) {
+					if semver.Major(tv) == semver.Major(qv) && cmp(tv, newest) > 0 {
+						newest = tv
+					}
+				}
+				if newest != qv {
+					return ev.Failf("upgradeall-not-latest", "%s: after upgrading everything %s is at %s although %s is tagged\n before %v -> %v\n after  %v -> %v", where, q, qv, newest, reqs, bl, res, bl2)
+				}
+			}
 		case "get":
 			cur, present := bl[p]
 			if !decided {
